@@ -670,6 +670,10 @@ func propTable() map[string]*PropSpec {
 			q = append(q, c)
 			th = append(th, c)
 		}
+		lc := rc("C17_LeaveCommittee", ".", "C17_LeaveCommittee", nil)
+		lc.RequireReach = []string{"C17.leave.done"}
+		q = append(q, lc)
+		th = append(th, lc)
 		mlf := rc("C17_MainLoopForward", ".", "C17_MainLoopForward", nil)
 		mlf.RequireReach = []string{"C17.main.future"}
 		q = append(q, mlf)
@@ -734,6 +738,10 @@ func propTable() map[string]*PropSpec {
 				q = append(q, c)
 			}
 		}
+		// the node alone holds the quorum weight and the cached proposal of the next height was retransmitted
+		hv := rc("C13_FutureRound/me=3/weights=6/duplicate=1", ".", "C13_FutureRound", map[string]int{"me": 3, "weights": 6, "duplicate": 1})
+		q = append(q, hv)
+		th = append(th, hv)
 		for _, me := range []int{0, 1} {
 			c := rc(fmt.Sprintf("C14_SyncDuringCommit/me=%d", me), ".", "C14_SyncDuringCommit", map[string]int{"me": me})
 			c.RequireReach = []string{"C14.sync_during_commit"}
